@@ -1,5 +1,5 @@
 """Seeded workload generators (workspaces, sources, histories)."""
-import json, os, random
+import json, os, random, re
 
 from .pymodel import WorkspaceModel
 
@@ -102,7 +102,10 @@ def probe_src(ws, names, rng, local_defs=None, kinds=None):
             elif k == "kwonly":
                 out.append(f"def test_k{u}(*, {n}):\n    pass\n\n")
             elif k == "usefixtures":
-                out.append(f'@pytest.mark.usefixtures("{n}")\ndef test_u{u}():\n    pass\n\n')
+                if rng.random() < 0.3:
+                    out.append(f'@pytest.mark.usefixtures(\n    "{n}",\n)\ndef test_u{u}():\n    pass\n\n')
+                else:
+                    out.append(f'@pytest.mark.usefixtures("{n}")\ndef test_u{u}():\n    pass\n\n')
             elif k == "class_mark":
                 out.append(f'@pytest.mark.usefixtures("{n}")\nclass TestC{u}:\n    def test_m(self):\n        pass\n\n')
             elif k == "method":
@@ -283,6 +286,19 @@ def gen_workspace(root, rng, depth=None, n_names=None, venv=None, collisions=Tru
             ws.files[os.path.join(d, f"test_other{lv}.py")] = HEADER + s + f"\ndef test_o({n}):\n    pass\n"
             ws.features.add(("other_test_module_def",))
         spec["levels"].append(lvspec)
+    # an import that cannot be mapped to any file (a package that is not installed), ahead of the fixture imports
+    for rel in list(ws.files):
+        if rel.endswith("conftest.py") and re.search(r"^(from \S+ import |pytest_plugins)", ws.files[rel], re.M) and rng.random() < 0.3:
+            lines_ = ws.files[rel].split("\n")
+            at = next(i for i, l in enumerate(lines_) if re.match(r"(from \S+ import |pytest_plugins)", l))
+            lines_.insert(at, "from acme_sdk_not_installed.testing import helper_thing")
+            ws.files[rel] = "\n".join(lines_)
+            ws.features.add(("unresolvable_import_first",))
+    # a probe whose last line (a usage) has no line terminator
+    for rel in list(ws.files):
+        if os.path.basename(rel) == "test_probe.py" and rng.random() < 0.25:
+            ws.files[rel] = ws.files[rel].rstrip("\n") + f"\n\ndef test_zlast({names[0]}): assert {names[0]}"
+            ws.features.add(("no_final_newline",))
     if venv:
         add_venv(ws, rng, names)
         # names that exist only in the plugin / third-party tiers are requested from every probe
